@@ -146,7 +146,7 @@ package core
 // fetchTail: resumes from the destination tree size, fetches nothing when the source has nothing
 // new, and starts fetching only after the consistency gate has passed.
 //@ func (*Controller).fetchTail
-//@ props C20
+//@ props C20 C16
 //@ arith int
 //@ site getRoot#1 as gr
 //@ site scanner.NewFetcher#1 as nf
@@ -169,3 +169,16 @@ package core
 //@ at run assert [fetch-runs-under-the-pass-own-context] run.ctx == wc.res0
 //@ at nf assert [fetch-starts-no-earlier-than-asked-and-resumes-from-the-destination-size-in-continuous-mode] nf.opts.StartIndex >= int64(begin) || int64(begin) < 0
 //@ at vc assert [gate-compares-destination-root-with-the-source-sth-just-fetched] vc.treeSize == gr.res0 && vc.rootHash == gr.res1 && vc.sth == pr.res0
+
+// C20 "for all ... fetcher / submitter counts": a pass with no fetcher or no submitter copies nothing
+// and still reports success, so an unset count becomes one worker, each count on its own, and every
+// other option is the configured value.
+//@ func OptionsFromConfig
+//@ props C20
+//@ arith int
+//@ modifies nothing
+//@ requires cfg != nil
+//@ ensures [an-unset-fetcher-count-means-one-fetcher] cfg.NumFetchers == 0 ==> result.FetcherOptions.ParallelFetch == 1
+//@ ensures [an-unset-submitter-count-means-one-submitter] cfg.NumSubmitters == 0 ==> result.Submitters == 1
+//@ ensures [set-counts-are-taken-as-configured] (cfg.NumFetchers != 0 ==> result.FetcherOptions.ParallelFetch == int(cfg.NumFetchers)) && (cfg.NumSubmitters != 0 ==> result.Submitters == int(cfg.NumSubmitters))
+//@ ensures [range-mode-and-sizes-are-the-configured-ones] result.FetcherOptions.BatchSize == int(cfg.BatchSize) && result.FetcherOptions.StartIndex == cfg.StartIndex && result.FetcherOptions.EndIndex == cfg.EndIndex && result.FetcherOptions.Continuous == cfg.IsContinuous && result.ChannelSize == int(cfg.ChannelSize) && result.NoConsistencyCheck == cfg.NoConsistencyCheck
